@@ -42,6 +42,8 @@ impl Error {
     pub open spec fn errno_spec(&self) -> Option<i32> { self.kind_spec().errno_spec() }
     pub open spec fn is_safety(&self) -> bool { self.kind_spec() is SafetyViolation }
     pub open spec fn is_invalid_arg(&self) -> bool { self.kind_spec() is InvalidArgument }
+    /// `Error::is_safety_violation`: errno() == EXDEV (also true for a plain OS error EXDEV)
+    pub open spec fn is_safety_errno(&self) -> bool { self.kind_spec().errno_spec() == Some(libc::EXDEV) }
 }
 impl vstd::std_specs::convert::FromSpecImpl<ErrorImpl> for Error {
     open spec fn obeys_from_spec() -> bool { true }
